@@ -1,6 +1,10 @@
 (* C28/Gen.v — REGENERATED on every run by tools/props/c28.py:regen from
      /repo/src/cffi/_embedding.h   (_cffi_start_python: where "_cffi_call_python = ... _cffi_call_python_org"
-                                    stands relative to the "if (!called)" block and its success branch)
+                                    stands relative to the "if (!called)" block and its success branch, and
+                                    whether the failure branch resets _cffi_call_python_org;
+                                    _cffi_initialize_python: PyGILState_Release on both exits;
+                                    _cffi_acquire_reentrant_mutex: guard released before the lock;
+                                    _cffi_start_and_call_python: memset / call under the NULL tests)
    Do not edit: this committed copy is the snapshot used when the translator fails. *)
 
 (* the switch to the fast path is inside "if (!called) { ... if (_cffi_initialize_python() == 0) { HERE } }" *)
@@ -11,3 +15,11 @@ Definition gen_init_exits : bool * bool := (true, true).
 
 (* _cffi_acquire_reentrant_mutex: the CAS guard is released before pthread_mutex_lock *)
 Definition gen_guard_released_before_lock : bool := true.
+
+(* _cffi_start_and_call_python: memset(args, 0, size_of_result) under "if (fnptr == NULL)", and the only
+   call through fnptr under "if (fnptr != NULL)", after it *)
+Definition gen_zero_on_null : bool := true.
+
+(* _cffi_start_python: the failure branch of _cffi_initialize_python(), inside "if (!called)", resets
+   _cffi_call_python_org = NULL *)
+Definition gen_fail_resets_org : bool := true.
